@@ -19,6 +19,13 @@ func (g *G) coinsFor(label string) sdk.Coins {
 	}
 	out := sdk.NewCoins()
 	for i := 0; i < n; i++ {
+		if g.chance(label+"-huge", 12) {
+			// amounts at and beyond the int64 boundary
+			h := pick(g, label+"-hugeamt", []string{"9223372036854775807", "9223372036854775808", "10000000000000000000", "18446744073709551616", "1000000000000000000000000000000"})
+			amt, _ := sdk.NewIntFromString(h)
+			out = out.Add(sdk.NewCoin(simnet.HugeDenom, amt))
+			continue
+		}
 		d := pick(g, label+"-denom", denoms)
 		amt := int64(pick(g, label+"-amt", []int{1, 2, 999, 1000000, 123456789, 400000000}))
 		out = out.Add(sdk.NewInt64Coin(d, amt))
